@@ -90,8 +90,17 @@ SHARED_SLUGS = {
                             ('carol', [R((2, 0), lambda: [W.p_get('3')])])],
 }
 HARNESSES.update(SHARED_SLUGS)
+# harnesses whose requests arrive in several transport segments, every recv() being a schedule
+# point: the receive path of the sessions (outside the engine) is explored too
+CHUNKED = {
+    'chunked_create_create': [('alice', [R((1, 2), lambda: [W.p_create()])]),
+                              ('bob', [R((2, 0), lambda: [W.p_create()])])],
+    'chunked_register_get': [('alice', [R((1, 4), lambda: [W.p_register(W.pie_secret(b'\x21' * 40))])]),
+                             ('bob', [R((1, 0), lambda: [W.p_get('2')]), R((1, 2), lambda: [W.p_locate()])])],
+}
+HARNESSES.update(CHUNKED)
 QUICK = ['create_create', 'batch_placeholder', 'attribute_policy', 'version_gate',
-         'batch_query_vs_query', 'two_each', 'three_creates', 'slugs_team_get']
+         'batch_query_vs_query', 'two_each', 'three_creates', 'slugs_team_get', 'chunked_create_create']
 
 _BASE = None
 
@@ -119,6 +128,12 @@ def _encode(threads):
 def _sessions(w, name, threads):
     """One session per thread. SHARED_SLUGS harnesses: all sessions get the SAME auth settings
     list (one SLUGS block, one URL), exactly what KmipServer hands to every session."""
+    if name in CHUNKED:
+        out = [w.session_for(user) for user, _ in threads]
+        for s_ in out:
+            # the 8-byte frame header whole, the body in two segments
+            s_._connection.chunker = lambda req, av, i: req if req <= 8 else max(1, req // 2)
+        return out
     if name not in SHARED_SLUGS:
         return [w.session_for(user) for user, _ in threads]
     W.SLUGS_DIRECTORY.clear()
@@ -220,6 +235,7 @@ def run_schedule(name, prefix, line_level, wide=False):
         bodies = []
         sessions = _sessions(w, name, threads)
         W.SLUGS_HOOK = (lambda url: sch.point('io:slugs')) if name in SHARED_SLUGS else None
+        W.RECV_HOOK = (lambda conn: sch.point('io:recv')) if name in CHUNKED else None
         for i, (user, reqs) in enumerate(threads):
             sess = sessions[i]
             sess._engine = S.EngineProxy(eng, sch)
@@ -255,6 +271,7 @@ def run_schedule(name, prefix, line_level, wide=False):
         return sch, outcome, problems
     finally:
         W.SLUGS_HOOK = None
+        W.RECV_HOOK = None
         w.close()
 
 
